@@ -176,6 +176,11 @@ func runC17(c *Ctx) {
 		major, minor := byte(c.T.Choose(256)), byte(c.T.Choose(256))
 		capsOf[p.Name], verOf[p.Name] = caps, [2]byte{major, minor}
 		p.Pkts = []CPkt{PHandshake(caps, major, minor), PTunnelCreate(ValidCookie(c, tw, p, p.AllowedHost), true), PTunnelAuth("n")}
+		if len(tw.Plans) == 1 && c.T.Bool(1, 4) {
+			// a client that takes its time (a credential prompt, a suspended laptop): the transport
+			// is up, the handshake follows half a minute to three minutes later
+			p.QuietBefore = map[int]time.Duration{0: time.Duration(31+c.T.Choose(150)) * time.Second}
+		}
 		if c.T.Bool(1, 4) {
 			// a client that pipelines: the handshake travels in one transport message with the
 			// packets that follow it
